@@ -1,0 +1,28 @@
+//go:build !verif
+
+package tls
+
+// Verification hook points (see verif_hooks_on.go). Without the "verif" build
+// tag they are empty and inlined away.
+
+func verifHookOutgoingHandshake(c *Conn, msg handshakeMessage, data []byte) []byte { return data }
+
+func verifHookServerSuite13(c *Conn, offered []uint16, selected *cipherSuiteTLS13) *cipherSuiteTLS13 {
+	return selected
+}
+
+func verifHookServerGroups13(c *Conn, clientGroups []CurveID, preferred []CurveID) []CurveID {
+	return preferred
+}
+
+func verifHookServerSuite12(c *Conn, offered []uint16, selected *cipherSuite) *cipherSuite {
+	return selected
+}
+
+func verifHookServerRandom12(c *Conn, random []byte) {}
+
+func verifHookClientVersions(c *Conn, legacyVersion uint16, versions []uint16) []uint16 {
+	return versions
+}
+
+func verifHookAfterServerFlight13(hs *serverHandshakeStateTLS13) error { return nil }
